@@ -507,6 +507,47 @@ def append_refusals(F):
     return [ok("R-GUARD", inst, fn.loc(throws[0]["id"]), fn.qn, req, "%d refusal(s), each under a root test of the second argument" % len(throws))]
 
 
+DISK_OPS = {"is_directory", "is_regular_file", "exists", "status", "symlink_status", "file_size", "last_write_time", "remove", "remove_all",
+            "create_directory", "create_directories", "rename", "copy", "copy_file", "current_path", "absolute", "canonical",
+            "weakly_canonical", "equivalent", "is_empty", "is_symlink", "read_symlink", "space", "temp_directory_path", "permissions",
+            "resize_file", "hard_link_count", "directory_iterator", "recursive_directory_iterator"}
+
+
+def string_laws_are_disk_free(F):
+    """The path helpers the string laws are stated over (split, join, extension, equality, root test) are functions of their
+    argument strings: neither they nor the repository helpers they call ask the file system anything (an answer that depends
+    on what exists on disk makes join / split disagree for some paths)."""
+    from ..through import closure
+    out = []
+    names = ("GetFilename", "GetDirectory", "GetFileExtension", "ChangeFileExtension", "Append", "AppendSubDirectory", "ReplaceFilename",
+             "AppendToFilename", "ExtensionMatches", "PathsAreEqual", "HasRootComponent", "IsRootPath")
+    n = 0
+    for nm in names:
+        for fn in F.fns(XF + nm):
+            if not fn.cfg:
+                continue
+            n += 1
+            hits = []
+            for f_ in closure(F, fn, depth=3, same_class_only=False):
+                for nd in f_.nodes:
+                    if nd["k"] in CALLS or nd["k"] in CTORS:
+                        fq = nd.get("fq") or nd.get("ctor_rec") or ""
+                        last = fq.split("::")[-1]
+                        if "filesystem" in fq and last in DISK_OPS:
+                            hits.append((f_, nd, last))
+                        elif nd["k"] in CALLS and fq.startswith("std::") and last in ("fopen", "stat", "access"):
+                            hits.append((f_, nd, last))
+            inst = XF + nm + "#disk-free"
+            req = "the result depends on the argument strings only (no file-system query on the way)"
+            if not hits:
+                out.append(ok("R-WHOCALLS", inst, fn.loc(fn.body), fn.qn, req, "no file-system operation reachable", nontrivial=False))
+            else:
+                f_, nd, last = hits[0]
+                out.append(bad("R-WHOCALLS", inst, f_.loc(nd["id"]), fn.qn, req,
+                               "reaches std::filesystem::%s in %s: the answer changes with what exists on disk" % (last, f_.qn.split("::")[-1])))
+    return out, n
+
+
 def debruijn(F):
     fn = F.fn("OP2Utility::Log2OfPowerOf2", nparams=1)
     table = None
@@ -622,6 +663,9 @@ def check(F, run, tier):
     run.add(paths_are_equal(F))
     run.add(extension_matches(F))
     run.add(append_refusals(F))
+    _od, _nd = string_laws_are_disk_free(F)
+    run.add(_od)
+    run.floor("path-helpers", _nd, 10)
     run.add(convert_to_upper(F))
     run.add(debruijn(F))
     run.add(is_power_of_2(F))
